@@ -4,10 +4,12 @@ from ..common import run_go, run_lean, dec_val, canon, enc_val
 
 FACTS = True
 MODULE = "Genql.Properties.C19"
-LEAN_TARGETS = [MODULE, "Genql.Obligations.C19"]
+LEAN_TARGETS = [MODULE, "Genql.Properties.C19Strict", "Genql.Obligations.C19"]
 THEOREMS = ["Genql.C19." + t for t in [
     "filterLoop_error", "mapE_error", "levelLoop_error", "execLevel_error", "evalArgs_error", "evalSel_error",
-    "vf_fail_fails", "where_fault_propagates", "no_partial_result"]] + ["Genql.Obligations.C19.errors_not_swallowed"]
+    "vf_fail_fails", "where_fault_propagates", "no_partial_result",
+    "strict_step", "strict_in_error", "where_nested_fault_propagates", "select_nested_fault_propagates", "derived_fault_propagates",
+    "from_error_select", "union_fault_propagates", "subquery_error", "cte_fault_propagates", "nestedRun_on_error"]] + ["Genql.Obligations.C19.errors_not_swallowed"]
 TRUSTED = ["the go/ast detector of error-swallowing shapes is syntactic (three shapes)", "sqlparser"]
 RULE = ("queries with a fault-injecting function in every clause position (WHERE, select list, HAVING, CTE body, derived table, "
         "row-scoped sub-query, union branch, IN sub-query, EXISTS, ON of sequential and PARALLEL joins with partner-less keys), an "
@@ -238,7 +240,13 @@ def explore(chk, rnd, tier):
 
 LEVEL_TEXT = ("Lean theorems about the model: every loop of the engine (filter loop incl. nested sources, select list, argument lists) "
               "returns the first error of any step and nothing else; a fault in WHERE on any row fails the whole modelled query; a "
-              "result is rows XOR error. Obligation re-checked on the current source: no error-swallowing shape exists. Tied to /repo "
+              "result is rows XOR error. 'Anywhere' over expression nesting (C19Strict): an operand in an always-evaluated position "
+              "(both operands of AND/OR, NOT, both sides of every comparison, BETWEEN's three operands, the left operand of arithmetic, "
+              "unary / IS operands, tuple elements, arguments of synchronous calls, the first WHEN condition) whose evaluation or "
+              "ValueOf fails makes the parent fail, at any depth (strict_in_error); such an expression in WHERE or in the select list "
+              "fails the SELECT (where_/select_nested_fault_propagates); a failing derived table, union branch, CTE body read by the "
+              "outer query, or row-scoped sub-query fails the query around it; the nested-loop join fails when ON fails on any pair of "
+              "key groups, whatever matched before (nestedRun_on_error). Obligation re-checked on the current source: no error-swallowing shape exists. Tied to /repo "
               "by COMPLETE fault enumeration per generated query (every invocation index k = 1..n) with the Lean evaluator given the "
               "same fault, RAISE / type-error probes in every clause, and follow-up queries on the same document object.")
 LEVEL_NOTE = ("Faults inside ASYNC/SPIN calls are C14/C13 territory (the property is about synchronously evaluated steps). The "
